@@ -709,16 +709,49 @@ def c04(ctx):
 
 def c12(ctx):
     binary = build()
+    # (1) the serializer's list handling, transcribed (JsonLdSer.tla), on EVERY small dataset: general shape (<= 3 quads over
+    #     blank / IRI nodes, rdf:first/rest/type, 3 graphs incl. one named by a blank node) and list shape (<= 6 first/rest quads)
+    mcs = [Bg(lambda: model_check(ctx, "MC_JsonLdSer", cfg="MC_JsonLdSer_general_fixed", workers=4, timeout=1500, tag="MC_JsonLdSer_general")),
+           Bg(lambda: model_check(ctx, "MC_JsonLdSer", cfg="MC_JsonLdSer_lists_fixed", workers=4, timeout=1500, tag="MC_JsonLdSer_lists"))]
+    # ... and the transcription can fail: the pinned commit's algorithm, and the first repair (one node unmarked per loop), are refuted
+    for cfg in ("MC_JsonLdSer_general_pinned", "MC_JsonLdSer_lists_head1"):
+        out = tlc(ctx, "MC_JsonLdSer", cfg=cfg, workers=2, timeout=600, tag=cfg)
+        if "Invariant RoundTrips is violated" not in out:
+            raise ToolError("JsonLdSer.tla no longer refutes %s: RoundTrips is vacuous\n" % cfg + out[-1500:])
+    ctx.notes.append("JsonLdSer.tla: Algo=pinned (panic / loss) and Algo=head1 (endless recursion on b1=[a|b2], b2=[b1|nil]) are refuted by TLC; Algo=fixed satisfies RoundTrips")
+    # (2) the same universes, printed by TLC, through the real serializer and parser
+    graphs = []
+    for cfg in ("Gen_JsonLdSer_general", "Gen_JsonLdSer_lists"):
+        out = tlc(ctx, "Gen_JsonLdSer", cfg=cfg, workers=1, timeout=600, tag=cfg)
+        tlc_must_be_clean(out, cfg)
+        graphs += [json.loads(json.loads(l.strip())) for l in out.splitlines() if l.strip().startswith('"{')]
+    if len(graphs) < 40000:
+        raise ToolError("Gen_JsonLdSer printed only %d datasets" % len(graphs))
+    genf = os.path.join(ctx.gen, "jsonld_datasets.ndjson")
+    with open(genf, "w") as f:
+        for g in graphs:
+            f.write(json.dumps(g) + "\n")
+    stride = 8 if ctx.quick() else 1
+    tr1 = os.path.join(ctx.traces, "jsonld_model.ndjson")
+    sv(binary, ["rt", "--family", "jsonld-model", "--gen", genf, "--stride", stride, "--seed", ctx.seed, "--out", tr1], ctx=ctx, timeout=3000)
+    rt_validate(ctx, tr1, "jsonld_model")
+    # (3) random shapes beyond the model
     tr = os.path.join(ctx.traces, "jsonld.ndjson")
     n = 3000 if ctx.quick() else 60000
     sv(binary, ["rt", "--family", "jsonld", "--n", n, "--seed", ctx.seed, "--out", tr], ctx=ctx, timeout=6000)
     trace = rt_validate(ctx, tr, "jsonld")
+    for m in mcs:
+        m.join()
+    ctx.exhaustive = not ctx.quick()
     ctx.samples += [{"config": [e["fmt"], e["pm"], e["indent"]], "in": show_quads(e["in"]), "document": uncps(e["text"])[:600]} for e in trace[40:900:400] if e["ev"] == "RT"]
-    ctx.rule = ("Trace_RoundTrip.tla: for every (dataset, options) the parse of the serializer's output must be isomorphic (Iso.tla, blank nodes scoped to the dataset) to the JSON-LD-expressible part of the input "
-                "(JsonLdExpressible: IRI/blank subjects and graph names, IRI predicates); a serializer/parser error or panic on expressible input is a violation. %d random datasets: default + named graphs (IRI and blank names), "
+    ctx.rule = ("JsonLdSer.tla transcribes the serializer's list handling (unique parents, described-once, list seeds, marking along rdf:rest, loops of parents, suppression of list nodes); TLC proves on ALL datasets of <= 3 quads "
+                "(general shape, 972,151 datasets) and <= 6 rdf:first/rest quads (768,212 datasets) that the document denotes exactly the input minus the recorded rdf:type rdf:List deviation, never crashes, and only drops labels that occur nowhere else. "
+                "TLC prints the universes of <= 2 / <= 4 quads (48,220 datasets) and every %s goes through the real serializer and parser. "
+                "Trace_RoundTrip.tla: for every (dataset, options) the parse of the output must be isomorphic (Iso.tla) to the JSON-LD-expressible part of the input; %d random datasets: default + named graphs (IRI and blank names), "
                 "blank nodes shared between graphs, rdf:first/rest chains well-formed / shared / branching / cyclic / typed rdf:List / split across graphs / headless, rdf:type with IRI and non-IRI objects, rdf:JSON, i18n and "
-                "compound-literal shapes; processing modes 1.0/1.1 x use_rdf_type x rdf_direction (same on both sides) x indentation; each input in a child process. distinct = (options, dataset)" % n)
-    ctx.assumptions += ["use_native_types excluded (lossy by specification)", "isomorphism judged by TLC (signature-pruned bijection search of Iso.tla)"]
+                "compound-literal shapes; processing modes 1.0/1.1 x use_rdf_type x rdf_direction (same on both sides) x indentation; each input in a child process. distinct = (options, dataset)" % ("8th" if ctx.quick() else "single one", n))
+    ctx.assumptions += ["use_native_types excluded (lossy by specification)", "isomorphism judged by TLC (signature-pruned bijection search of Iso.tla)",
+                        "the transcription covers processing mode 1.1, use_rdf_type=false, no rdf_direction; the other option settings are covered by trace validation only"]
 
 
 def c18(ctx):
